@@ -14,7 +14,7 @@ RULE = ('eight recursive templates (linear / quadratic self-loop, with and witho
         'when it converges, with the contraction ratio rho measured alongside); value within the a-priori error bound; '
         'method=linear raises ValueError exactly on non-linearly-recursive grammars; starved budgets (kmax 0..3, tol '
         '1e-12) must warn whenever the result is not converged. Non-trivial = finite non-zero least fixed point.')
-ASSUMPTIONS = ['Real/Log error bound: 10*tol/(1-rho) + 1e-9 relative, judged for rho <= 0.95; for rho in (0.95,1) only '
+ASSUMPTIONS = ['Real/Log error bound: 10*tol/(1-rho) + 1e-10 relative (Log: 1e-9), plus 10x the error the exact Kleene iteration itself has at the start symbol when its recursive-component increments first drop to tol (amplification through rules above a recursive component), judged for rho <= 0.95; for rho in (0.95,1) only '
                '"never above the least fixed point" is judged', 'cases whose oracle does not converge are excluded and counted']
 CHUNK = 4
 ALPHA = [Fraction(0), Fraction(1, 4), Fraction(1, 2), Fraction(1), Fraction(2)]
@@ -24,7 +24,7 @@ METHODS = ('fixed-point', 'newton', 'linear')
 
 def bounds(tier):
     return {'max_free_entries': 3 if tier == 'quick' else 4, 'alphabet': ['0', '1/4', '1/2', '1', '2'],
-            'tolerances': [1e-3, 1e-6, 1e-9], 'starved_kmax': [0, 1, 2, 3]}
+            'tolerances': [1e-3, 1e-6, 1e-12], 'starved_kmax': [0, 1, 2, 3]}
 
 
 def gen_cases(tier, seed):
@@ -66,7 +66,12 @@ def run_case(case):
     # oracles
     bl = oracles.bool_lfp(ir, w)
     vit, _ = oracles.kleene_exact(ir, w, 'max')
-    status, mpv, rho = oracles.kleene_mp(ir, w)
+    reach = IR.reach(IR.nt_graph(ir))
+    rec_nts = [x for x in ir['nt'] if x in reach[x]]
+    tr = []
+    status, mpv, rho = oracles.kleene_mp(ir, w, trace=tr, rec_nts=rec_nts)
+    global _TRACE
+    _TRACE = (tr, {ea: float(x) for ea, x in mpv[ir['start']].items()} if status == 'finite' else None)
     if status == 'undecided' and name == 'quad-scalar':
         # closed form of x = a x^2 + b at criticality (4ab = 1): x = 1/(2a); Kleene converges like 1/k there
         a, b = w['a'], w['b']
@@ -77,7 +82,7 @@ def run_case(case):
     shape = oracles.ext_shape(ir, start)
     for sem in SEMS:
         for method in METHODS:
-            tols = (1e-6,) if sem in ('bool', 'viterbi') else ((1e-3, 1e-6, 1e-9) if sem == 'real' else (1e-6,))
+            tols = (1e-6,) if sem in ('bool', 'viterbi') else ((1e-3, 1e-6, 1e-12) if sem == 'real' else (1e-6,))
             for tol in tols:
                 cfg = (sem, method, tol, 1000)
                 if only is None or only == cfg:
@@ -88,6 +93,23 @@ def run_case(case):
             if only is None or only == cfg:
                 run_cfg(ir, w, lin, 'real', method, 1e-12, kmax, bl, vit, status, mpv, rho, r, case[:4] + (cfg,))
     return r
+
+
+_TRACE = ([], None)
+
+
+def amplified(tol):
+    """Error of the start value that an iteration stopping at increments <= tol inside the recursive components may
+    legitimately leave, measured on the oracle's own Kleene iteration: the start value computed from the first iterate
+    whose recursive-component increments are <= tol, against the least fixed point.  Accounts for non-recursive (or
+    further recursive) rules above a recursive component amplifying its error."""
+    tr, lfp = _TRACE
+    if lfp is None:
+        return 0.0
+    for inc, zs in tr:
+        if inc <= tol:
+            return max([abs(lfp[ea] - zs[ea]) for ea in lfp] or [0.0])
+    return 0.0
 
 
 def run_cfg(ir, w, lin, sem, method, tol, kmax, bl, vit, status, mpv, rho, r, case):
@@ -181,7 +203,8 @@ def run_cfg(ir, w, lin, sem, method, tol, kmax, bl, vit, status, mpv, rho, r, ca
         bound = (10 * tol / (1 - rho) + 1e-9) * scale * 1.0   # log-space tolerance = relative error
         bound = max(bound, 10 * tol / (1 - rho) * scale)
     else:
-        bound = 10 * tol / (1 - rho) + 1e-9 * scale
+        bound = 10 * tol / (1 - rho) + 1e-10 * scale
+    bound += 10 * amplified(tol)
     if method == 'linear':
         bound = 1e-8 * scale / (1 - rho)
     if err > bound:
